@@ -42,7 +42,7 @@ func init() {
 				n, sweep = 4000, 10
 			}
 			return []runner.Phase{
-				{Name: "scenarios", Variant: "race", Cases: n, Run: c01case, CaseTimeout: 180 * time.Second, Required: []string{"late_delivered_then_reused", "calls_ok", "calls_server_error", "calls_timeout", "calls_ctx", "window_scenarios"}},
+				{Name: "scenarios", Variant: "race", Cases: n, Run: c01case, CaseTimeout: 180 * time.Second, Required: []string{"late_delivered_then_reused", "calls_ok", "calls_server_error", "calls_timeout", "calls_ctx", "window_scenarios", "answers_split_across_the_read_timeout"}},
 				{Name: "stream-sweep", Variant: "plain", Cases: sweep, Shards: 2, Run: c01sweep, CaseTimeout: 300 * time.Second, Required: []string{"ids_swept"}},
 			}
 		},
@@ -89,6 +89,14 @@ func c01cfg(c *runner.Ctx, i int) *echoCfg {
 		ec.reusePhase = 0
 	}
 	ec.bigFrames = r.Intn(4) == 0
+	if i%4 == 2 {
+		// family: a few answers arrive in two pieces with a gap longer than the driver's read timeout in between
+		// (each costs 1.5 x timeout on its connection, so only a handful)
+		ec.pSplit = 1 + r.Intn(2)
+		ec.callers = []int{2, 8, 64}[r.Intn(3)]
+		ec.perCaller = 240/ec.callers + 1
+		ec.pLate, ec.pNever = 0, 0
+	}
 	if i%6 == 5 {
 		// family: callers give up while their frame sits in the write coalescer and the node answers late
 		ec.coalesce = []time.Duration{500 * time.Microsecond, 2 * time.Millisecond}[r.Intn(2)]
@@ -138,6 +146,10 @@ func c01case(c *runner.Ctx, i int) {
 	wit := map[string]interface{}{"scenario": echoKey(ec), "outcomes": res.outcomes, "seed": ec.seed}
 	for _, m := range res.mismatches {
 		c.Violation(fmt.Sprintf("C01:wrong-response:v%d", ec.version), "a caller received a response that belongs to another request: "+m, wit)
+	}
+	c.Add("answers_split_across_the_read_timeout", res.splits)
+	for _, s := range echoDesync(res) {
+		c.Violation("C01:driver-lost-its-place-in-the-response-stream", s, wit)
 	}
 	for _, s := range res.recvStalls {
 		c.Violation("C01:response-never-delivered", "the responses the node sent never reach the callers that wait for them: "+s, wit)
